@@ -278,3 +278,24 @@ PROPS["C11"] = Prop(
     level_text=("exploration over objects/flag words/strings (held on what was generated); the 20x20 compare_types table and the kind "
                 "predicates are enumerated completely in every run"),
 )
+
+
+PROPS["C09"] = Prop(
+    "C09",
+    [Stage("asan", "c09_helpers", "asan", quick=6000, thorough=150000, per_worker_env=xml_backend_env)],
+    rule=("one WF-clean topology per case (synthetic or corpus XML under a random configuration, then 0-2 random restricts to make "
+          "it asymmetric / CPU-less), 40 (thorough 60) rounds of 9 query families with generated sets (empty, whole, not included, "
+          "infinite, one object, unions straddling siblings, object minus a PU, random subsets): covering/child covering, largest "
+          "objects, inside/covering iterators by depth and type, ancestors/common ancestor/next_child, closest objects, cpuset<->nodeset, "
+          "same locality, type/depth lookups, hwloc_distrib, singlify_per_core; each compared with a brute-force scan of the flat view "
+          "through the SET model. distinct+non-trivial = class 1: (helper, answer depth / count class) whose brute-force answer is not "
+          "the root and not NULL"),
+    nontrivial_classes=[1], floor=100,
+    assumptions=COMMON_ASSUME + [
+        "hwloc_get_common_ancestor_obj and ancestor lookups are exercised on normal objects (virtual depths are negative)",
+        "distrib: pairwise disjointness demanded only for pairwise-disjoint roots, n <= PUs below them and until >= PU depth",
+        "closest_objs: completeness demanded for same-depth objects whose cpuset is not included in the source's",
+        "topologies failing WF after the random restricts are skipped here (they are C02/C08 findings)"],
+    technique="runtime monitor: helper results vs brute-force set-theoretic definitions computed over all objects with the SET model, under gcc ASan+UBSan",
+    level_text="exploration: generated topologies x generated query sets/objects; every helper call is compared with its definition evaluated by exhaustive scan",
+)
